@@ -1,0 +1,36 @@
+//go:build verif
+
+package gcsutil
+
+// VerifSim holds the callbacks of the deterministic simulator (build tag "verif").
+// With both nil the tag-on build behaves exactly like the tag-off build.
+var VerifSim struct {
+	// Yield is called at the internal steps of Lock/Unlock; Block is called (repeatedly)
+	// while the calling task can neither acquire the key lock nor give up.
+	Yield func(point string)
+	Block func(point string)
+}
+
+func simYield(p string) {
+	if f := VerifSim.Yield; f != nil {
+		f(p)
+	}
+}
+
+// simWaitUntil parks the calling task until cond holds, so that a simulated task never
+// really blocks on the key channel while the holder is parked.
+func simWaitUntil(p string, cond func() bool) {
+	if VerifSim.Block == nil {
+		return
+	}
+	for !cond() {
+		VerifSim.Block(p)
+	}
+}
+
+// VerifLen returns the number of entries retained by the map.
+func (l *TransientLockMap) VerifLen() int {
+	l.mu.Lock()
+	defer l.mu.Unlock()
+	return len(l.locks)
+}
